@@ -74,7 +74,22 @@ func r13a(c *core.Ctx) {
 	c.Check(base == ssa.Value(gb) && low.String() == "2", "body-at-offset-2", pack.Pos(), fn, "the body is packed into the same buffer at offset 2", low.String())
 	pb, plow := sliceBase(e, put.Common().Args[1])
 	n := extractOf(pack, 0)
-	c.Check(pb == ssa.Value(gb) && plow.String() == "0" && core.Expr(put.Common().Args[2]) == "conv("+core.Expr(n)+")", "prefix-is-body-length", put.Pos(), fn, "the 2-byte prefix at offset 0 is the length returned by that Pack call", core.Expr(put.Common().Args[2]))
+	prefixOK := core.Expr(put.Common().Args[2]) == "conv("+core.Expr(n)+")"
+	if !prefixOK && n != nil {
+		// any expression that is linearly equal to the Pack result, e.g. len(b[:2+n]) - 2
+		pv := put.Common().Args[2]
+		for {
+			if cv, ok := pv.(*ssa.Convert); ok {
+				pv = cv.X
+				continue
+			}
+			break
+		}
+		if k, isC := e.Of(pv).Sub(e.Of(n)).IsConst(); isC && k == 0 {
+			prefixOK = true
+		}
+	}
+	c.Check(pb == ssa.Value(gb) && plow.String() == "0" && prefixOK, "prefix-is-body-length", put.Pos(), fn, "the 2-byte prefix at offset 0 is the length returned by that Pack call", core.Expr(put.Common().Args[2]))
 	errV := extractOf(pack, 1)
 	c.Check(errV != nil && core.NilAt(errV, put.Block()) == core.IsNil, "prefix-after-successful-pack", put.Pos(), fn, "the prefix is written only after Pack succeeded", "")
 	for i, ret := range returnsOf(fn) {
